@@ -19,7 +19,8 @@ items += [
     {'file': P + 'error.rs', 'item': 'enum LexError', 'attrs': 'drop'},   # Clone modelled in decode_spec.rs
     item('with.rs', 'impl With<T> :: fn new', 'impl<T> With<T>', 'With::new', ret='r', ensures=[('post', 'r.sdata() == data && r.stoken() == token')]),
     item('with.rs', 'impl With<T> :: fn get', 'impl<T> With<T>', 'With::get', ret='r', ensures=[('post', '*r == self.sdata()')]),
-    item('with.rs', 'impl With<T> :: fn get_mut', 'impl<T> With<T>', 'With::get_mut', ret='r'),
+    item('with.rs', 'impl With<T> :: fn get_mut', 'impl<T> With<T>', 'With::get_mut', ret='r',
+         ensures=[('post', '*r == old(self).sdata() && final(self).sdata() == *final(r) && final(self).stoken() == old(self).stoken()')]),
     item('with.rs', 'impl With<T> :: fn token', 'impl<T> With<T>', 'With::token', ret='r', ensures=[('post', '*r == self.stoken()')]),
     item('token.rs', 'impl Token :: fn token_type', 'impl Token', 'Token::token_type', ret='r', ensures=[('post', '*r == self.s_type()')]),
     item('imm.rs', 'impl Imm :: fn new', 'impl Imm', 'Imm::new', ret='r', ensures=[('post', 'r.sval() == value')]),
@@ -60,6 +61,8 @@ items += [
     {'file': PARSING, 'item': 'impl TryFrom<&mut Peekable<Lexer>> for ParserNode :: fn try_from', 'wrap': 'impl ParserNode', 'fn': 'try_from', 'attrs': 'drop', 'ret': 'r',
      'requires_text': ['type Error = LexError;'],
      'ensures': [('table', 'decoded(old(val).remaining(), r)')],
+     'anchors': [{'at': 'let new_imm = Imm::new(imm.get().value() << 12);', 'where': 'before',
+                  'lines': ['proof { lemma_shl12(imm.sdata().sval()); }']}],
      'loops': {0: {'invariant': [('frame', 'true')], 'decreases': 'lex.lexer.remaining().len()'},
                1: {'invariant': [('frame', 'true')], 'decreases': 'lex.lexer.remaining().len()'}},
      # R9: closure parameter pattern `()` is unsupported by Verus; a named parameter of type () is the same closure
@@ -79,7 +82,7 @@ UNIT = {
 TEXTS = {
     ('try_from', 'table'): 'for every token stream whose first token is a mnemonic: if a node is returned it means what the manual assigns to the operand tokens '
                            '(one line per mnemonic / operand form in contracts/verus/decode_spec.rs::official; pseudo-instructions against the meaning of their '
-                           'official expansion, reading x0 = reading 0); carve-outs: auipc, sgez; lui: shape only',
+                           'official expansion, reading x0 = reading 0); carve-out: sgez; lui / auipc: 20-bit operand range and value operand * 4096',
     ('Type::from', 'table'): 'the mnemonic -> instruction format table agrees with the manual for all 110 mnemonics',
     'stream': 'reads exactly the next item of the token stream and interprets it as the operand kind asked for',
     'post': 'builds exactly the node / value it is given',
